@@ -27,6 +27,10 @@ THEOREMS = [
     "Cv.C05e.encoded_mitmFindPathTo_single_word",
     "Cv.C05e.encoded_between_single_word",
     "Cv.C05e.encoded1d_mitm_eq",
+    "Cv.C05m.mat_mitmFindPathTo_spec",
+    "Cv.C05m.mat_layer_le_of_closed",
+    "Cv.C05m.mat_mitmFindPathFrom_spec",
+    "Cv.C05m.mat_between_spec",
 ]
 
 
@@ -211,7 +215,7 @@ def main():
         body = json.load(open(os.path.join(VERIF, ck.replay) if not os.path.isabs(ck.replay) else ck.replay))
         ck.guard(run_case, ck, body["case"])
         ck.finish(rule="replay of one recorded case")
-    ck.lean_obligations(['CvProps.C05a', 'CvProps.C05b', "CvProps.C05e"], THEOREMS)
+    ck.lean_obligations(['CvProps.C05a', 'CvProps.C05b', "CvProps.C05e", "CvProps.C05m"], THEOREMS)
     for case in json.load(open(os.path.join(VERIF, "harness", "corpus", "C05.json"))):
         ck.guard(run_case, ck, case)
         ck.count("corpus")
